@@ -55,7 +55,9 @@ unsafe impl GlobalAlloc for Instr {
         }
     }
     unsafe fn dealloc(&self, ptr: *mut u8, layout: Layout) {
-        if tracking() {
+        // also while a panic unwinds through the library: a half-built clone, a vector whose element
+        // destructor panicked ... release their storage on the way out, and that is the crate's doing
+        if ALLOC_TRACK.try_with(|t| t.get()).unwrap_or(false) {
             // blocks not in the ledger belong to the harness itself (e.g. the buffer of a
             // replacement iterator dropped inside a library frame): not the crate's business
             let known = crate::elem::untracked(|| LEDGER.with(|l| l.borrow_mut().remove(&(ptr as usize))));
